@@ -13,7 +13,8 @@ import (
 )
 
 // newWriter creates a writer of the given configuration.
-//   text | pretty | binary (growing table) | binlst (fixed table defining `fixed`)
+//
+//	text | pretty | binary (growing table) | binlst (fixed table defining `fixed`)
 func newWriter(mode string, out io.Writer, fixed []Bytes) ion.Writer {
 	switch mode {
 	case "text":
@@ -71,9 +72,9 @@ type wprotoEvent struct {
 	C     *Call   `json:"c,omitempty"`
 	Res   string  `json:"res,omitempty"` // ok | err | panic
 	Ins   bool    `json:"ins"`
-	Out   Bytes   `json:"out"`   // everything emitted so far (logged at every Finish)
+	Out   Bytes   `json:"out"` // everything emitted so far (logged at every Finish)
 	Msg   string  `json:"msg,omitempty"`
-	Twice bool    `json:"same"`  // at Finish: the same program run a second time emitted the same bytes
+	Twice bool    `json:"same"` // at Finish: the same program run a second time emitted the same bytes
 }
 
 // runProgram replays prog on a fresh writer; after the program it always issues one closing
@@ -139,14 +140,14 @@ type rtCase struct {
 }
 
 type rtObs struct {
-	Idx   int    `json:"idx"`
-	Mode  string `json:"mode"`
-	WErr  string `json:"werr"`
-	WPan  string `json:"wpanic"`
-	Out   Bytes  `json:"out"`
-	RErr  string `json:"rerr"`
-	RPan  string `json:"rpanic"`
-	Back  []Val  `json:"back"`
+	Idx  int    `json:"idx"`
+	Mode string `json:"mode"`
+	WErr string `json:"werr"`
+	WPan string `json:"wpanic"`
+	Out  Bytes  `json:"out"`
+	RErr string `json:"rerr"`
+	RPan string `json:"rpanic"`
+	Back []Val  `json:"back"`
 }
 
 // roundtrip: write each forest with every writer mode, Finish, read the bytes back.
@@ -200,7 +201,7 @@ func init() {
 }
 
 type readCase struct {
-	Bytes Bytes `json:"bytes"`
+	Bytes Bytes  `json:"bytes"`
 	Mode  string `json:"mode"`
 }
 
